@@ -164,7 +164,34 @@ MEM = Stage(
     nontrivial=lambda e: e.get("ev") != "Start",
 )
 
+CONC = Stage(
+    family="conc",
+    mc={"quick": [("Conc.tla", "MC_Conc.cfg", "pass"), ("Conc.tla", "MC_Conc_neg.cfg", "fail")],
+        "thorough": [("Conc.tla", "MC_Conc_t.cfg", "pass"), ("Conc.tla", "MC_Conc_neg.cfg", "fail")]},
+    parts={"quick": [("", 2)], "thorough": [("", 4)]},
+    trace=("Trace_Conc.tla", "Trace_Conc.cfg"),
+    nontrivial=lambda e: e.get("ev") in ("Par", "End"),
+    race=True,
+    driver_env="RACELOG",
+)
+
 CHECKS = {
+    "C13": dict(
+        stages=[CONC],
+        technique="TLA+ model of pooled buffers under interleaved goroutines (Conc.tla): TLC exhaustive over all interleavings "
+                  "+ TLC validation of recorded parallel executions (race-detector build) against their sequential results",
+        level_text="TLC explores every interleaving of 2 (thorough 3) goroutines x 3 operations, each Get / write / copy-out / "
+                   "Put on a shared pool: every operation returns what it returns alone and no pooled buffer is held twice; "
+                   "releasing the buffer before the copy-out is the negative configuration.  Generated programs (encode, decode + "
+                   "input scribble, String, CMPP/SMPP splitting, batch Build, UCS-2 pooled helper, GSM-7 functions) are first "
+                   "run alone, then on 2..8 (thorough 64) goroutines with GOMAXPROCS 1..16 and seeded yields in a -race binary; "
+                   "TLC requires every parallel result to equal its sequential result and zero race-detector reports",
+        level_note="real schedules are sampled, not controlled; the data-race sensor is Go's race detector (reports read from its "
+                   "log files); this is the property where the specification contributes least beyond the pool model and the "
+                   "organisation of the evidence",
+        rule="program = Seq events + Par events (one per call) + End (race report count); distinct = distinct Par/End events",
+        assumptions=["Go race detector", "operations are deterministic functions of (kind, seed); results compared by length+FNV-64 digest"],
+    ),
     "C12": dict(
         stages=[MEM],
         technique="TLA+ ownership model (buffers with owners and content tokens, results, views) (Mem.tla): TLC exhaustive over "
